@@ -185,6 +185,11 @@ func c05Explain(b []byte, e *c05Entry) string {
 		if r.R&oracle.RSkip != 0 && !e.skips {
 			continue
 		}
+		// Valid looks at the whole text itself (fix 89981db): what a Decoder leaves in the
+		// stream or steps over in front of a value explains nothing there
+		if e.name == "Valid" && (r.R == oracle.RLeadSep || r.R == oracle.RTrailAfterTop) {
+			continue
+		}
 		if r.Scope == "buf" || (r.Scope == "skip" && e.skips) || (e.stream && (r.Scope == "stream" || r.Scope == "skip")) {
 			rx = append(rx, rn{r.Name, r.R})
 		}
